@@ -154,7 +154,6 @@ def run(ctx: Ctx):
         gvals = get_code_calls(ctx, short)
         if gvals:
             check_value_forwarding(ctx, "R07.b", mainf, gvals, gcf, None, skip=set(gcf.params) - {"stiff_states", "delta", "scheme"})
-    for short in ("cli/gotran2py.py", "cli/gotran2c.py"):
-        g = sm.func(short, "get_code")
-        calls = [c for c in find_calls(g.node, "add_schemes")]
-        ctx.check(bool(calls) and common.forwards(calls[0], "stiff_states", "stiff_states"), "R07.b", g.key("stiff_states"), "get_code forwards stiff_states", f"{short}::get_code does not forward stiff_states to add_schemes", g.where())
+    from .c18 import check_get_code_forwards
+
+    check_get_code_forwards(ctx, "R07.b", "stiff_states")
